@@ -402,6 +402,10 @@ func FieldProv(v ssa.Value) string {
 	case *ssa.Lookup:
 		return FieldProv(x.X) + "[" + FieldProv(x.Index) + "]"
 	case *ssa.Call:
+		// a defensive copy of a list is, for provenance, the list
+		if arg, ok := CopyHelperArg(x); ok {
+			return FieldProv(arg)
+		}
 		var args []string
 		if x.Call.IsInvoke() {
 			args = append(args, FieldProv(x.Call.Value))
